@@ -103,6 +103,8 @@ type FileLayout struct {
 	// TopSidxGap > 0: a free box of that many bytes (>= 8) follows the top-level sidx, and the sidx says so in
 	// first_offset (the indexed material starts behind the free box)
 	TopSidxGap int `json:",omitempty"`
+	// TopSidxGapLarge: that free box carries a 64-bit size field (TopSidxGap >= 16)
+	TopSidxGapLarge bool `json:",omitempty"`
 	// TopSidxSplit = k with 0 < k < len(Segments): the top-level index is written as TWO chained sidx boxes behind
 	// moov (both version 1): the first references segments 0..k-1 and skips the second box in first_offset, the
 	// second references segments k.. and skips the first k segments in first_offset
